@@ -3,6 +3,7 @@ from . import corecommon as cc
 from . import c04
 from .tapecommon import TapeNames, tap_state, describe_state, TAPOBJ, A
 from zx import term as tm
+from zx import lia
 from zx.term import K, T
 from zx.walk import Walker, Agg, Ref, EffectResult, UNIT, SymObj
 
@@ -65,9 +66,17 @@ def run(chk):
                 continue
             if nz is True:
                 gt = c04.cc_decide(r, tm.cmp("ult", D, clocks))
-                want = K(0, 64) if gt else tm.binop("sub", D, clocks)
-                ok = (not r.trace) and stt[0] == vn and bit is bit0 and byte is byte0 and gt is not None and \
-                    isinstance(dl, T) and (dl is want or tm.equiv(dl, want) is True)
+                # the stored delay is 0 when clocks > delay and delay - clocks otherwise, whether the code branches
+                # on it or computes it in one expression (saturating_sub): decided per case by linear arithmetic
+                okd = isinstance(dl, T)
+                if okd:
+                    for case in ((1, lambda ctx: lia.lin(dl, ctx)), (0, lambda ctx: lia.lin(dl, ctx) - lia.lin(D, ctx) + lia.lin(clocks, ctx))):
+                        if gt is not None and gt != bool(case[0]):
+                            continue
+                        f2 = dict(r.facts)
+                        f2[tm.cmp("ult", D, clocks)] = K(case[0], 1)
+                        okd = okd and lia.prove(f2, [], [(case[1], "==")], [dl])
+                ok = (not r.trace) and stt[0] == vn and bit is bit0 and byte is byte0 and okd
                 chk.check(ok, key + "/countdown", "with delay > 0 (clocks > delay: %s) the step gives state %s delay %s level %s effects %s" % (
                     gt, stt, dl, bit, r.trace))
                 chk.count("countdown-paths")
@@ -164,7 +173,7 @@ def run(chk):
                 chk.check(stt[0] == "Play" and kconst(dl, PAUSE) and bit is toggled, key, "pause -> %s, %s T" % (stt, dl))
     chk.count("table-rows", rows)
     chk.floor("table-rows", 18)
-    chk.floor("countdown-paths", 14)
+    chk.floor("countdown-paths", 7)
     chk.sample({"pulse_lengths": {"pilot": PILOT, "sync": [S1, S2], "bit0": ZERO, "bit1": ONE, "pause": PAUSE}, "rows": rows})
     # block framing / window invariant of the TAP reader (shared rule, rules/tapeinv.py)
     from . import tapeinv
